@@ -202,19 +202,62 @@ flow main
 """
 
 
-def v2_world(in_order=(), out_order=(), dialog=False, exceptions=False, extra_colang="", main=None):
+LIB_REFUSAL = "I'm sorry, I can't respond to that."
+LIB_EXC = {"in1": "Input not allowed. The input was blocked by the 'self check input' flow.",
+           "out1": "Output not allowed. The output was blocked by the 'self check output' flow."}
+
+
+def v2_refusal(rail, library=False):
+    return LIB_REFUSAL if library else f"REFUSED-{rail}"
+
+
+def v2_exc_message(rail, library=False):
+    return LIB_EXC[rail] if library else f"BLOCKED-{rail}"
+
+
+def v2_world(in_order=(), out_order=(), dialog=False, exceptions=False, extra_colang="", main=None, library=False):
+    """library=True: the rails are the SHIPPED flows `self check input` / `self check output` (rails in1 / out1); only
+    their actions are replaced by stubs that follow the verdict script"""
     colang = "import core\nimport guardrails\n" + ("import llm\n" if dialog == "llm" else "")
-    colang += "".join(v2_rail(r, "input") for r in IN_RAILS) + "".join(v2_rail(r, "output") for r in OUT_RAILS)
-    if in_order:
-        colang += "\nflow input rails $input_text\n" + "".join(f"  {r} $input_text\n" for r in in_order)
-    if out_order:
-        colang += "\nflow output rails $output_text\n" + "".join(f"  {r} $output_text\n" for r in out_order)
+    if library:
+        assert set(in_order) <= {"in1"} and set(out_order) <= {"out1"}
+        colang += "import nemoguardrails.library.self_check.input_check\nimport nemoguardrails.library.self_check.output_check\n"
+        if in_order:
+            colang += "\nflow input rails $input_text\n  self check input\n"
+        if out_order:
+            colang += "\nflow output rails $output_text\n  self check output\n"
+    else:
+        colang += "".join(v2_rail(r, "input") for r in IN_RAILS) + "".join(v2_rail(r, "output") for r in OUT_RAILS)
+        if in_order:
+            colang += "\nflow input rails $input_text\n" + "".join(f"  {r} $input_text\n" for r in in_order)
+        if out_order:
+            colang += "\nflow output rails $output_text\n" + "".join(f"  {r} $output_text\n" for r in out_order)
     colang += main if main is not None else (V2_MAIN_LLM if dialog == "llm" else (V2_MAIN_DIALOG if dialog else V2_MAIN_NODIALOG))
     colang += extra_colang
     yaml = 'colang_version: "2.x"\n'
     if exceptions:
         yaml += "enable_rails_exceptions: True\n"
-    w = World(colang, yaml)
+    if library:
+        # the import path of the shipped rails is resolved relative to the directory that holds the package
+        import os
+        import nemoguardrails
+        cwd = os.getcwd()
+        os.chdir(os.path.dirname(os.path.dirname(os.path.abspath(nemoguardrails.__file__))))
+        try:
+            w = World(colang, yaml)
+        finally:
+            os.chdir(cwd)
+    else:
+        w = World(colang, yaml)
     w.rails.register_action(w._rail_action, name="VerifRailAction")
     w.rails.register_action(w._dialog_action, name="VerifLookupAction")
+    if library:
+        async def self_check_input(context=None):
+            return w._rail_sync("in1", (context or {}).get("user_message")) is not False
+
+        async def self_check_output(context=None):
+            return w._rail_sync("out1", (context or {}).get("bot_message")) is not False
+
+        w.rails.register_action(self_check_input, name="SelfCheckInputAction")
+        w.rails.register_action(self_check_output, name="SelfCheckOutputAction")
     return w
